@@ -11,7 +11,7 @@ import sys
 import time
 import traceback
 
-from .core import (Failure, HarnessError, Outcome, canon, clip, fingerprint, jsonify,
+from .core import (Failure, HarnessError, LibraryFault, guarded, Outcome, canon, clip, fingerprint, jsonify,
                    unjsonify)
 
 VERIF = os.path.dirname(os.path.dirname(os.path.abspath(__file__)))
@@ -191,7 +191,7 @@ def _run_enum(ctx):
             ctx.stats.wall_capped = True
             break
         n += 1
-        out = c.execute(case)
+        out = guarded(c.execute)(case)
         ctx.stats.record(case, out, c.distinct_by_construction)
         if out.failures:
             for f in ctx.classify(out.failures):
@@ -238,7 +238,7 @@ def _hyp_round(ctx, c, strat, state, excluded, total, done, restart):
                     return
                 if time.time() - state["t_found"] > c.shrink_wall:
                     return
-            out = c.execute(case)
+            out = guarded(c.execute)(case)
             if state["target"] is None:
                 state["n"] += 1
                 ctx.stats.record(case, out, c.distinct_by_construction)
@@ -389,7 +389,7 @@ def run_property(prop_id, tier, replay=None):
                 continue
             if c.setup:
                 c.setup()
-            out = c.execute(unjsonify(rec["case"]))
+            out = guarded(c.execute)(unjsonify(rec["case"]))
             for f in out.failures:
                 k = findings.match(prop_id, f)
                 if k is not None:
@@ -562,7 +562,7 @@ def _replay(mod, path, findings):
         return 2
     if c.setup:
         c.setup()
-    out = c.execute(unjsonify(rec["case"]))
+    out = guarded(c.execute)(unjsonify(rec["case"]))
     bad = 0
     for f in out.failures:
         k = findings.match(mod.ID, f)
